@@ -880,6 +880,42 @@ func ruleC19DiscoverParse(c *Ctx) {
 			if !ok || x.Index != 0 {
 				return false, false
 			}
+			// a helper of the package that does the parsing and yields (index, ok): judged by its returns; the caller has
+			// to look at ok
+			if g := call.Call.StaticCallee(); g != nil && c.InPkg(g) && g.Signature.Results().Len() == 2 && depth < 3 {
+				okAll, nRet := true, 0
+				for _, gb := range g.Blocks {
+					ret, isRet := gb.Instrs[len(gb.Instrs)-1].(*ssa.Return)
+					if !isRet || len(ret.Results) != 2 {
+						continue
+					}
+					nRet++
+					if _, isC := ret.Results[0].(*ssa.Const); isC {
+						continue // the failure return
+					}
+					if o, tst := wholeParse(ret.Results[0], depth+1); !o || !tst {
+						okAll = false
+					}
+				}
+				callerLooks := false
+				for _, r := range referrers(call) {
+					if e, ok := r.(*ssa.Extract); ok && e.Index == 1 {
+						for _, r2 := range referrers(e) {
+							switch y := r2.(type) {
+							case *ssa.If:
+								callerLooks = true
+							case *ssa.UnOp:
+								for _, r3 := range referrers(y) {
+									if _, ok := r3.(*ssa.If); ok {
+										callerLooks = true
+									}
+								}
+							}
+						}
+					}
+				}
+				return okAll && nRet > 0, callerLooks
+			}
 			switch fullCalleeName(call) {
 			case "strconv.ParseInt", "strconv.ParseUint", "strconv.Atoi":
 			default:
